@@ -17,28 +17,16 @@ import time
 
 ROOT = os.path.dirname(os.path.dirname(os.path.abspath(__file__)))
 WORK = os.path.join(ROOT, '.work')
-EVID = os.path.join(ROOT, 'evidence')
-REPLAYS = os.path.join(ROOT, 'replays')
+EVID = os.environ.get('VERIF_EVIDENCE_DIR') or os.path.join(ROOT, 'evidence')  # override: self-validation runs on mutated trees
+REPLAYS = os.path.join(os.environ['VERIF_EVIDENCE_DIR'], 'replays') if os.environ.get('VERIF_EVIDENCE_DIR') else os.path.join(ROOT, 'replays')
 PY = sys.executable
 CASE_WATCHDOG_S = 60
 MAX_KEEP = 12
 
 
 def ensure_deps() -> None:
-    """icontract lives beside the repo's interpreter in /verif/.deps (git-ignored, rebuilt offline)."""
-    deps = os.path.join(ROOT, '.deps')
-    if deps not in sys.path:
-        sys.path.insert(0, deps)
-    try:
-        import icontract  # noqa: F401
-        return
-    except Exception:
-        pass
-    try:
-        subprocess.run([PY, '-m', 'pip', 'install', '-q', '--no-index', '--find-links', '/opt/veriftools/wheels', '--target', deps, 'icontract'],
-                       check=False, stdout=subprocess.DEVNULL, stderr=subprocess.DEVNULL, timeout=180)
-    except Exception:
-        pass
+    """No third-party dependency is needed: every monitor is plain Python beside the repository's interpreter."""
+    return None
 
 
 def load_known() -> dict:
@@ -63,8 +51,9 @@ def _known(known: dict, prop: str, mech):
     return ents[0] if len(ents) == 1 else {'id': mech, 'summary': ' AND '.join(e['summary'] for e in ents)}
 
 
-class _Watchdog(Exception):
-    pass
+class _Watchdog(KeyboardInterrupt):
+    """Raised by SIGALRM. Derives from KeyboardInterrupt because asyncio and the library under test swallow
+    ordinary exceptions (and even BaseException in callbacks); KeyboardInterrupt is re-raised out of the loop."""
 
 
 def _alarm(_s, _f):
